@@ -41,7 +41,8 @@ func bitsToBig(bits []bool) *big.Int {
 
 // c01Case runs Garble + Eval + Compute on one circuit and returns the op
 // line and the canonical result line.
-func c01Case(o *hxlib.Out, c *circuit.Circuit, key, tape []byte, x []bool, idx int) (string, string) {
+func c01Case(o *hxlib.Out, c *circuit.Circuit, key, tape []byte, x []bool, idx int, release bool) (string, string, *circuit.Garbled) {
+	var handle *circuit.Garbled
 	op := fmt.Sprintf("c01 %s %s %s %s", hxlib.Hex(key), hxlib.Hex(tape), hxlib.CircLine(c), hxlib.BitsString(x))
 	var res strings.Builder
 	func() {
@@ -156,9 +157,13 @@ func c01Case(o *hxlib.Out, c *circuit.Circuit, key, tape []byte, x []bool, idx i
 				o.Count("gate_in0_eq_in1")
 			}
 		}
-		g.Release()
+		if release {
+			g.Release()
+		} else {
+			handle = g
+		}
 	}()
-	return op, res.String()
+	return op, res.String(), handle
 }
 
 func b2i(b bool) int {
@@ -199,32 +204,64 @@ func c01(args []string) int {
 			continue
 		}
 		c := hxlib.GenCircuit(r, hxlib.GenOpts{MaxGates: maxGates, MaxIn: 6, Mix: mixes[i%len(mixes)], AllowReuse: i%3 == 0})
-		key := r.Bytes(keySizes[i%3])
 		nin := c.Inputs.Size()
-		tape := r.Bytes(16 * (1 + nin))
-		// bias some tapes: all-zero / all-one labels exercise equal permute bits
-		switch r.Intn(10) {
-		case 0:
-			for j := range tape {
-				tape[j] = 0
+		// A history of garblings on ONE circuit value: scratch buffers released
+		// and reused, the key buffer refilled in place or replaced, key sizes
+		// changing, earlier handles still live.  Each round must behave like a
+		// first use (compared with the model and checked by the oracle).
+		rounds := 1 + r.Intn(3)
+		kb := r.Bytes(keySizes[i%3])
+		var live []*circuit.Garbled
+		for k := 0; k < rounds; k++ {
+			if k > 0 {
+				switch r.Intn(3) {
+				case 0: // refill the same buffer in place
+					r.Read(kb)
+					o.Count("history_key_refilled_in_place")
+				case 1: // new buffer, same size
+					kb = r.Bytes(len(kb))
+					o.Count("history_key_new_buffer")
+				default: // different key size
+					kb = r.Bytes(keySizes[r.Intn(3)])
+					o.Count("history_key_resized")
+				}
 			}
-		case 1:
-			for j := range tape {
-				tape[j] = 0xff
+			tape := r.Bytes(16 * (1 + nin))
+			// bias some tapes: all-zero / all-one labels exercise equal permute bits
+			switch r.Intn(10) {
+			case 0:
+				for j := range tape {
+					tape[j] = 0
+				}
+			case 1:
+				for j := range tape {
+					tape[j] = 0xff
+				}
 			}
+			x := make([]bool, nin)
+			for j := range x {
+				x[j] = r.Bool()
+			}
+			release := r.Intn(3) != 0
+			op, res, h := c01Case(o, c, kb, tape, x, i, release)
+			if h != nil {
+				live = append(live, h)
+				o.Count("history_handle_kept_live")
+			} else {
+				o.Count("history_released")
+			}
+			o.Op(op, res)
+			o.Count("cases")
+			o.Count(fmt.Sprintf("keysize_%d", len(kb)))
+			o.CountN("gates", len(c.Gates))
 		}
-		x := make([]bool, nin)
-		for j := range x {
-			x[j] = r.Bool()
+		for _, h := range live {
+			h.Release()
 		}
-		op, res := c01Case(o, c, key, tape, x, i)
-		o.Op(op, res)
-		o.Count("cases")
-		o.Count(fmt.Sprintf("keysize_%d", len(key)))
+		o.Count("circuits")
 		o.Count("mix_" + mixes[i%len(mixes)])
-		o.CountN("gates", len(c.Gates))
 		if i < 3 {
-			o.Sample(map[string]any{"case": i, "circuit": hxlib.CircLine(c), "x": hxlib.BitsString(x), "keylen": len(key)})
+			o.Sample(map[string]any{"case": i, "circuit": hxlib.CircLine(c), "rounds": rounds})
 		}
 	}
 	return 0
